@@ -37,6 +37,9 @@ func c04Specs(tier string) []*h.SeqSpec {
 	f.Raw("I1nomt", f.Items["I1"], noMT)
 	const repo = "a"
 	i1 := f.Items["I1"]
+	// references whose digest is not a digest at all: such content cannot exist, the push must be refused
+	mangle := func(body []byte, good, bad string) []byte { return []byte(strings.Replace(string(body), good, bad, 1)) }
+	l1d, cd := f.Items["l1"].Dig, f.Items["c"].Dig
 	bodies := []c04Body{
 		{"valid image I1", i1.Data, mtImg, "I1", ""},
 		{"image, config never uploaded", f.Items["Inoc"].Data, mtImg, "Inoc", ""},
@@ -52,6 +55,13 @@ func c04Specs(tier string) []*h.SeqSpec {
 		{"no Content-Type, undetectable body", []byte("{}"), "", "", "media type cannot be determined"},
 		{"image without mediaType field", noMT, mtImg, "I1nomt", ""},
 		{"docker type for an OCI body", i1.Data, types.MediaTypeDocker2Manifest, "", "media type inconsistent with the body (mediaType field names the OCI type)"},
+		{"image, layer digest of the wrong length", mangle(i1.Data, l1d, "sha256:abcd"), mtImg, "", "a layer digest that is not a digest"},
+		{"image, layer digest empty", mangle(i1.Data, l1d, ""), mtImg, "", "a layer digest that is not a digest"},
+		{"image, layer digest with an unregistered algorithm", mangle(i1.Data, l1d, "md5:d41d8cd98f00b204e9800998ecf8427e"), mtImg, "", "a layer digest that is not a digest"},
+		{"image, config digest empty", mangle(i1.Data, cd, ""), mtImg, "", "a config digest that is not a digest"},
+		{"image, layer digest with dot segments", mangle(i1.Data, l1d, "sha256:../../../b/blobs/sha256/"+strings.TrimPrefix(f.Items["lb"].Dig, "sha256:")), mtImg, "", "a layer digest that is not a digest"},
+		{"index, child digest of the wrong length", mangle(f.Items["X1"].Data, i1.Dig, "sha256:1234"), mtIdx, "", "a child digest that is not a digest"},
+		{"index, child digest empty", mangle(f.Items["X1"].Data, i1.Dig, ""), mtIdx, "", "a child digest that is not a digest"},
 	}
 	items := []string{"c", "l1", "l2", "e", "cb", "lb", "nc", "nl", "I1", "I2", "Inoc", "Inol", "Ib", "Imiss", "X1", "Xmiss", "A1", "I1nomt"}
 	tags := []string{"t", "u"}
@@ -144,9 +154,9 @@ func c04Specs(tier string) []*h.SeqSpec {
 	push("PUT valid image as t ?digest=right sha512", b0, tagRef, "", "digest="+url.QueryEscape(h.Dig("sha512", b0.data)), "")
 	push("PUT valid image as t ?digest=wrong", b0, tagRef, "", "digest="+url.QueryEscape(f.Items["I2"].Dig), "?digest= is not the digest of the body")
 	push("PUT valid image as t ?digest=malformed", b0, tagRef, "", "digest=sha256:zz", "malformed ?digest=")
-	depth := 3
+	depth := 2
 	if tier == "thorough" {
-		depth = 4
+		depth = 3
 	}
 	var specs []*h.SeqSpec
 	for _, store := range []string{"mem", "dir"} {
@@ -220,7 +230,7 @@ func init() {
 	h.RegisterSeq(&h.SeqCheck{
 		ID:    "C04",
 		Level: "model_checking",
-		Rule: "breadth-first search (bounded depth) in which every manifest push of a matrix of 14 bodies (valid, incomplete in three ways, blobs only in another repository, truncated, wrong class for the Content-Type, mediaType field contradicting the header, unsupported / absent Content-Type) x references (tag, own digest, 129-char tag, bad character, other digest, malformed digest, sha512 digest, ?digest= right/wrong/malformed) is applied in every repository state reachable by the building operations and by other pushes; " +
+		Rule: "breadth-first search (bounded depth) in which every manifest push of a matrix of 21 bodies (valid, references whose digest is malformed / empty / of an unregistered algorithm / contains dot segments, incomplete in three ways, blobs only in another repository, truncated, wrong class for the Content-Type, mediaType field contradicting the header, unsupported / absent Content-Type) x references (tag, own digest, 129-char tag, bad character, other digest, malformed digest, sha512 digest, ?digest= right/wrong/malformed) is applied in every repository state reachable by the building operations and by other pushes; " +
 			"acknowledged iff the model predicate holds; a refusal must be 4xx and leave the complete read transcript (tags, manifests, blobs, referrers) unchanged; non-trivial = state with a manifest",
 		Assume: []string{"a child manifest whose body is still in the store but whose index entry was deleted is left open (the statement says 'exists')",
 			"'inconsistent with the body' is only claimed when the body's mediaType field names another type than the Content-Type"},
